@@ -725,6 +725,15 @@ def walk_clause(crate, o, p):
             else:
                 ins = {rv}
             o.check(ins <= {F, ev["res"]} and ev["res"] in ins, who, "walk-verdict", "the result is not `len > 1 && all pairs are arcs`", ev["span"])
+        # all() over no pairs is true: the pair test must only be reached for walks of at least two vertices
+        two, zero = ("const", "usize", 2), ("const", "usize", 0)
+
+        def long_enough(rel):
+            from .facts import mk_ne
+            return rel.lt(one, LEN) or rel.le(two, LEN) or (rel.has(mk_ne(LEN, zero)) and rel.has(mk_ne(LEN, one))) \
+                or (rel.lt(zero, LEN) and rel.has(mk_ne(LEN, one)))
+        o.check(fx.holds(ev["b"], long_enough), who, "walk-min-length", "the pairwise test is reached without `walk.len() > 1`: "
+                "all() over no pairs is true, so an empty or one-vertex sequence is reported as a walk", ev["span"])
         return
     o.undecided.append((who, "has_walk is written neither over consecutive pairs with all() nor as the cursor loop"))
 
